@@ -402,7 +402,7 @@ func genBig(t *rapid.T) BigCase {
 		chain = append(chain, []int{-lit(i - 1), lit(i), lit(i)})
 	}
 	chain = append(chain, []int{-lit(c.ChainLen - 1), -lit(c.ChainLen - 1), -lit(0)})
-	m := gen.Uniform(t, 8300, 9500, "padding")
+	m := gen.Uniform(t, 14000, 20000, "padding")
 	at := map[int]int{}
 	for i := range chain {
 		at[gen.Uniform(t, 0, m-1, "chainAt")] = i
@@ -487,8 +487,8 @@ func init() {
 }
 
 func init() {
-	vf.Register(vf.Sub[BigCase]{Name: "big-wrapped-file", Quick: 5, Thorough: 40, Gen: genBig, Check: checkBig, Floor: 0.9,
-		Rule: "a DIMACS text of 130..200 KB read by explain.ParseCNF: 8300..9500 three-literal clauses over 10 variables, every clause written over two or three lines (LF or CRLF), among them an implication chain of 3..10 steps (each clause repeating a literal) that unit propagation refutes; asserted: the parsed clause list equals the text's, the bare empty clause is accepted by both checker entry points, UnsatSubset returns an unsatisfiable sub-multiset"})
+	vf.Register(vf.Sub[BigCase]{Name: "big-wrapped-file", Quick: 5, Thorough: 40, Gen: genBig, Check: checkBig, Floor: 0.9, Classes: map[string]float64{"text>128KB": 0.9},
+		Rule: "a DIMACS text of 150..260 KB read by explain.ParseCNF: 14000..20000 three-literal clauses over 10 variables, every clause written over two or three lines (LF or CRLF), among them an implication chain of 3..10 steps (each clause repeating a literal) that unit propagation refutes; asserted: the parsed clause list equals the text's, the bare empty clause is accepted by both checker entry points, UnsatSubset returns an unsatisfiable sub-multiset"})
 }
 
 func TestMain(m *testing.M)   { vf.Main(m, "C08") }
